@@ -6,6 +6,7 @@ import FitProps.C13
 import FitProps.C14
 import FitProps.C16
 import FitProps.LinksApi
+import FitProps.DecoderApiDefaultLemmas
 /-!
 # C03 — Decoding arbitrary bytes never panics, hangs or fakes success
 
@@ -14,7 +15,7 @@ that the driver runs against the real code (families `decapi`, `dechist`). They 
 option combination, every factory table and every sequence of API calls.
 
 PROPERTY THEOREMS (audited by ./check): C03_no_panic, C03_no_hang, C03_sticky, C03_error_sticks, C03_sticky_run,
-C03_no_fake_success, C03_no_fake_success_msgs, C03_no_fake_success_clean, C03_no_panic_ops_any_reader, C03_ctx_cancel, C03_ctx_no_fake_success, C03_raw_total, C03_readbuffer_total, C03_listener_total, C03_consts
+C03_no_fake_success, C03_no_fake_success_msgs, C03_no_fake_success_clean, C03_no_panic_ops_any_reader, C03_default_config_total, C03_ctx_cancel, C03_ctx_no_fake_success, C03_raw_total, C03_readbuffer_total, C03_listener_total, C03_consts
 -/
 namespace Fit.C03
 open Fit.DecApi
@@ -264,6 +265,40 @@ theorem C03_readbuffer_total :
   · intro chk fuel b s size hb
     exact Fit.DecProg.runRB_no_panic _ (Fit.C08.C08_request_bound chk fuel true []) (Fit.DecProg.keeps_decodeLoop chk fuel true [])
       _ _ (Fit.ReadBuffer.reset_inv b s size) hb
+
+/-- **The decoder's DEFAULT configuration** (`decoder.New(r)`: standard factory, component expansion on) as
+`FitModel/DecoderApiDefault.lean` models it — the decoder-API model with the regenerated standard factory and expansion off,
+every decoded message then expanded by C05's model of `expandComponents` over the real component / sub-field graph: for every
+byte stream, option set and history of calls, no call ends in a panic or a hang. (Every result is, call by call, (C)'s result
+with the FIT's messages expanded; the expansion itself is a total function — `Fit.Expand.decodeTail`, whose recursion over
+the real graph is bounded by `C05_profile_depth`; its bit store, accumulator and scale / offset arithmetic are C05's and
+C12's subject.) -/
+theorem C03_default_config_total (o : Opts) (bytes : List Nat) (ops : List Op) (hb : IsBytes bytes)
+    (hops : ∀ o' b, Op.reset o' b ∈ ops → IsBytes b) :
+    ∀ y ∈ Default.run o bytes ops, ∀ evs, y ≠ some (.other .panic, evs) ∧ y ≠ some (.other .hang, evs) := by
+  intro y hy evs
+  unfold Default.run at hy
+  simp only at hy
+  rw [List.zip_map_right] at hy
+  have hy' : y ∈ Default.walk o {} (((ops.map (Default.innerOp o)).zip
+      (run (Api.fresh (Default.inner o) bytes) (ops.map (Default.innerOp o)))).map fun t => (t.1, some t.2)) := hy
+  obtain ⟨t, ht, msgs, evs', rfl⟩ := Default.walk_out o _ _ y hy'
+  have hmem : t.2 ∈ run (Api.fresh (Default.inner o) bytes) (ops.map (Default.innerOp o)) := (List.of_mem_zip ht).2
+  have hops' : ∀ op ∈ ops.map (Default.innerOp o), OpOK op := by
+    intro op hop
+    obtain ⟨op0, h0, rfl⟩ := List.mem_map.mp hop
+    cases op0 with
+    | reset o' b => exact ⟨hops o' b h0, Default.facOK_std⟩
+    | _ => trivial
+  have h1 := C03_no_panic (Default.inner o) bytes _ hb Default.facOK_std hops' t.2 hmem
+  have h2 := C03_no_hang (Default.inner o) bytes _ hb Default.facOK_std hops' t.2 hmem
+  constructor
+  · intro h
+    cases hout : t.2.1 <;> simp [hout, Default.xoutOf] at h
+    exact h1 hout
+  · intro h
+    cases hout : t.2.1 <;> simp [hout, Default.xoutOf] at h
+    exact h2 hout
 
 /-- **Every entry point over ANY reader.** The decoder object driven through any list of calls — `Decode`,
 `DecodeWithContext` (context live / cancelled before / cancelled during the call), `PeekFileHeader`, `PeekFileId`, `Discard`,
